@@ -339,6 +339,18 @@ pub struct S8 {
 }
 struct_node!(S8, S8Owned, sized: [(n, PackedValue<u16>)], unsized: [(1, x, List<u8>), (2, e, E2)]);
 
+/// a unit variant FIRST, the #[default_init] variant a data variant in the middle, another data variant of another size last
+#[unsized_type(skip_idl)]
+#[repr(u8)]
+pub enum E3 {
+    U,
+    #[default_init]
+    V(List<u8>),
+    W(S1) = 9,
+}
+enum_node!(E3, E3Owned, E3Exclusive, E3Discriminants, repr: 1, default: V,
+    data: [(V, set_v, List<u8>), (W, set_w, S1)], unit: [(U, set_u)]);
+
 // ---- the family ----------------------------------------------------------------------------------
 /// call `$m!(index, Type)` for the selected shape
 #[macro_export]
@@ -373,8 +385,11 @@ macro_rules! with_shape {
             // keyed containers whose items have forbidden bit patterns (parse / encode properties only)
             25 => $m!(Map<u8, bool, u8>),
             26 => $m!(Set<bool, u8>),
+            // a length prefix as wide as usize over multi-byte items: count x size can wrap
+            27 => $m!(List<PackedValue<u32>, u64>),
+            28 => $m!($crate::shapes::E3),
             _ => panic!("unknown shape"),
         }
     };
 }
-pub const N_SHAPES: i128 = 27;
+pub const N_SHAPES: i128 = 29;
